@@ -3,6 +3,7 @@
  *   window   one encoded stream per case; ALL 2^k loss patterns over a window of k packets (arg k=) at a random position are decoded,
  *            each lost packet concealed by a whole-packet call, by 2.5-20 ms pieces, or recovered by an FEC call on the next packet
  *   burst    random long bursts (up to 10 s) for the decay clause, plus FEC calls with frame_size larger than the packet
+ *   multiburst  60 s streams with several 4-10 s bursts in one decoder lifetime (state accumulated over loss episodes)
  * Oracles: exact requested duration, finite samples, received packets reproduce the encoder's final range, concealed level bounded by
  * the recently decoded level, decay under sustained loss, FEC (when the next packet has LBRR) far closer to the loss-free decoder than
  * concealment and otherwise identical to concealment on a cloned decoder, convergence to the loss-free twin after losses stop.
@@ -25,6 +26,7 @@ static int lbrr_frame_flags(const unsigned char *pkt,int len,int flags[3]){ flag
 #define C09_DELTA 0.7          /* after >= 1 s of continuous loss: block RMS <= DELTA x recent level */
 #define C09_RHO 1.0            /* sum of FEC error energies <= RHO x sum of PLC error energies, over a case's LBRR events */
 #define C09_LBRR_GAIN 0.5      /* decoded LBRR sub-frame gain >= this x the gain the encoder quantised the LBRR frame with */
+#define C09_EPISODE_GROWTH 3.0  /* stationary stimulus: level 1 s into a loss episode <= this x the level 1 s into the previous episode */
 #define C09_FRAC 0.7           /* at least this fraction of a case's LBRR events must be closer to the loss-free twin than concealment */
 #define C09_RECOVER_DB 20.0    /* segmental SNR vs the loss-free twin, 1 s after the last loss */
 #endif
@@ -35,19 +37,20 @@ static int lbrr_frame_flags(const unsigned char *pkt,int len,int flags[3]){ flag
 #include "main.h"
 extern void (*opus_verif_silk_params_cb)(const silk_decoder_state *psDec,const silk_decoder_control *psDecCtrl,const opus_int16 *pNLSF_Q15) __attribute__((weak));
 extern void (*opus_verif_silk_lbrr_gains_cb)(int channelNb,int frame,int nb_subfr,const opus_int32 *Gains_Q16) __attribute__((weak));
-static opus_int32 g_enc[1400][3][4]; static int g_phase=0, g_pkt=0; static const void *g_mid=NULL; static double g_minratio, g_maxratio; static int g_seen, g_exact;
+static opus_int32 g_enc[3200][3][4]; static int g_phase=0, g_pkt=0; static const void *g_mid=NULL; static double g_minratio, g_maxratio; static int g_seen, g_exact;
 static void lbrr_enc_cb(int chn,int frame,int nsub,const opus_int32 *g){ if(chn!=0||frame<0||frame>2||g_phase!=1) return; for(int k=0;k<4;k++) g_enc[g_pkt][frame][k]= k<nsub?g[k]:0; }
 static void gains_cb(const silk_decoder_state *psDec,const silk_decoder_control *c,const opus_int16 *nlsf){ (void)nlsf; if(!g_mid) g_mid=psDec; if(psDec!=g_mid||g_phase!=2) return; int j=psDec->nFramesDecoded; if(j<0||j>2) return;
   for(int k=0;k<psDec->nb_subfr;k++) if(g_enc[g_pkt][j][k]>0){ double q=(double)c->Gains_Q16[k]/g_enc[g_pkt][j][k]; if(q<g_minratio) g_minratio=q; if(q>g_maxratio) g_maxratio=q; g_seen++; if(c->Gains_Q16[k]==g_enc[g_pkt][j][k]) g_exact++; }
   if(getenv("C09_DEBUG")&&atoi(getenv("C09_DEBUG"))>=2) fprintf(stderr,"  lbrr of packet %d frame %d decoded gains %d %d %d %d encoder's %d %d %d %d\n",g_pkt,j,c->Gains_Q16[0],c->Gains_Q16[1],c->Gains_Q16[2],c->Gains_Q16[3],g_enc[g_pkt][j][0],g_enc[g_pkt][j][1],g_enc[g_pkt][j][2],g_enc[g_pkt][j][3]); }
-#define MAXP 1400
+#define MAXP 3200
 typedef struct { int n, fs, ch, Fs, mode, fidx; unsigned char *pkt[MAXP]; int len[MAXP]; opus_uint32 rng[MAXP]; int lbrr[MAXP]; float *twin; } cstream;
-static void make_stream(vc_rng *r,cstream *s,int want_ms){ int err; static const int mfs[3][5]={{2,3,4,5,3},{2,3,3,3,2},{0,1,2,3,3}}; int mode=VK_MODE_SILK+(int)vc_below(r,3); int eFs=vc_chance(r,2,3)?48000:VC_PICK(r,vk_rates); int ch=1+vc_below(r,2); int fidx=mfs[mode-VK_MODE_SILK][vc_below(r,5)];
+static int g_steady=0;   /* 1: stationary noise after a quiet 1.5 s lead-in (instead of speech-like bursts) */
+static void make_stream(vc_rng *r,cstream *s,int want_ms){ int err; static const int mfs[3][5]={{2,3,4,5,3},{2,3,3,3,2},{0,1,2,3,3}}; int mode=VK_MODE_SILK+(int)vc_below(r,3); if(g_steady) mode=VK_MODE_CELT;   /* the stationary stimulus is for the CELT noise-floor tracker only: SILK's comfort noise legitimately continues stationary noise at its level */ int eFs=vc_chance(r,2,3)?48000:VC_PICK(r,vk_rates); int ch=1+vc_below(r,2); int fidx=mfs[mode-VK_MODE_SILK][vc_below(r,5)];
   OpusEncoder *e=opus_encoder_create(eFs,ch,OPUS_APPLICATION_AUDIO,&err); opus_encoder_ctl(e,VK_SET_FORCE_MODE_REQUEST,mode); int bw= mode==VK_MODE_SILK?OPUS_BANDWIDTH_NARROWBAND+(int)vc_below(r,3): mode==VK_MODE_HYBRID?OPUS_BANDWIDTH_SUPERWIDEBAND+(int)vc_below(r,2):OPUS_AUTO; opus_encoder_ctl(e,OPUS_SET_BANDWIDTH(bw));
   opus_encoder_ctl(e,OPUS_SET_BITRATE(vc_range(r,16000,64000)*ch)); int fec=(mode!=VK_MODE_CELT)&&vc_chance(r,3,4); if(fec){ opus_encoder_ctl(e,OPUS_SET_INBAND_FEC(1)); opus_encoder_ctl(e,OPUS_SET_PACKET_LOSS_PERC(vc_range(r,15,40))); }
-  vc_siggen g; vs_init(&g,VS_SPEECHLIKE,eFs,ch,(float)(0.3+0.5*vc_unit(r)),vc_next(r)); int efs=vk_frame_samples(eFs,fidx); static float in[5760*2]; unsigned char buf[1500]; int n=(int)(want_ms/(efs*1000.0/eFs)); if(n>MAXP) n=MAXP; s->n=0;
+  vc_siggen g; vs_init(&g,g_steady?VS_BANDNOISE:VS_SPEECHLIKE,eFs,ch,(float)(0.3+0.5*vc_unit(r)),vc_next(r)); int efs=vk_frame_samples(eFs,fidx); static float in[5760*2]; unsigned char buf[1500]; int n=(int)(want_ms/(efs*1000.0/eFs)); if(n>MAXP) n=MAXP; s->n=0;
   memset(g_enc,0,sizeof g_enc); g_phase=1;
-  for(int k=0;k<n;k++){ vs_fill(&g,in,efs); g_pkt=s->n; int len=opus_encode_float(e,in,efs,buf,1500); if(len<=0) break; s->pkt[s->n]=vc_exact_copy(buf,len); s->len[s->n]=len; opus_encoder_ctl(e,OPUS_GET_FINAL_RANGE(&s->rng[s->n])); s->lbrr[s->n]=opus_packet_has_lbrr(buf,len)>0; s->n++; }
+  for(int k=0;k<n;k++){ vs_fill(&g,in,efs); if(g_steady&&(long long)k*efs<(long long)eFs*3/2) for(int q=0;q<efs*ch;q++) in[q]*=0.002f; g_pkt=s->n; int len=opus_encode_float(e,in,efs,buf,1500); if(len<=0) break; s->pkt[s->n]=vc_exact_copy(buf,len); s->len[s->n]=len; opus_encoder_ctl(e,OPUS_GET_FINAL_RANGE(&s->rng[s->n])); s->lbrr[s->n]=opus_packet_has_lbrr(buf,len)>0; s->n++; }
   g_phase=0; opus_encoder_destroy(e); s->Fs=vc_chance(r,2,3)?eFs:VC_PICK(r,vk_rates); s->ch=vc_chance(r,3,4)?ch:1+(int)vc_below(r,2); s->fs=(int)((long long)efs*s->Fs/eFs); s->mode=mode; s->fidx=fidx;
   /* loss-free twin */
   s->twin=(float*)malloc(sizeof(float)*(size_t)s->n*s->fs*s->ch); OpusDecoder *d=opus_decoder_create(s->Fs,s->ch,&err); g_mid=NULL; for(int k=0;k<s->n;k++){ int rc=opus_decode_float(d,s->pkt[k],s->len[k],s->twin+(size_t)k*s->fs*s->ch,s->fs,0); if(rc!=s->fs){ fprintf(stderr,"twin decode %d\n",rc); exit(3); } } g_phase=0; g_mid=NULL; opus_decoder_destroy(d); }
@@ -61,20 +64,25 @@ static double recent_peak(const recent_t *q){ double m=0; for(int i=0;i<q->nb;i+
 
 /* concealed audio is collected across consecutive calls into 20 ms blocks (the same block length as the reference level), so that
    2.5 ms pieces are not compared with 20 ms averages; lossms = length of the current continuous loss before this buffer */
-static struct { double e,p; int n; } cacc;
+static struct { double e,p; int n; } cacc; static struct { double e; int n; } dacc;
+static int cc_steady=0; static double cc_prev1s=0, cc_cur1s=0; static int cc_have1s=0;   /* stationary stimulus: concealment level 1 s into each loss episode of one decoder lifetime */
 static int check_concealed(const float *x,int n,int ch,const recent_t *q,double lossms,int Fs,const char *what,const char *ctx){ double lvl=recent_level(q), pk=recent_peak(q); int bn=Fs/50;
   for(int i=0;i<n*ch;i++) if(!isfinite(x[i])){ vc_viol("conceal:not-finite","%s: non-finite sample (%s)",what,ctx); return 1; }
   for(int i=0;i<n;i++){ for(int c=0;c<ch;c++){ double v=x[i*ch+c]; cacc.e+=v*v; if(fabs(v)>cacc.p) cacc.p=fabs(v); } if(++cacc.n<bn) continue; double rm=sqrt(cacc.e/(bn*ch)), p=cacc.p; double t=lossms+(i+1)*1000.0/Fs-20; cacc.e=0; cacc.p=0; cacc.n=0;
-    if(lvl>1e-3){ vc_max("concealed_rms_over_recent_level",rm/lvl); vc_max("concealed_peak_over_recent_peak",p/(pk+1e-9)); if(t>=1000) vc_max("level_after_1s_loss_over_recent_level",rm/lvl); }
+    if(lvl>1e-3){ vc_max("concealed_rms_over_recent_level",rm/lvl); vc_max("concealed_peak_over_recent_peak",p/(pk+1e-9)); }
     if(rm>C09_KAPPA*lvl+2e-3){ vc_viol("conceal:unbounded-rms","%s: 20 ms block RMS %.4f is %.2f x the level decoded in the last 500 ms (%.4f), %0.f ms into the loss (%s)",what,rm,rm/(lvl+1e-12),lvl,t,ctx); return 1; }
     if(p>C09_PEAK_KAPPA*pk+5e-3){ vc_viol("conceal:unbounded-peak","%s: peak %.4f is %.2f x the recent peak %.4f, %.0f ms into the loss (%s)",what,p,p/(pk+1e-12),pk,t,ctx); return 1; }
-    if(t>=1000&&lvl>0.02&&rm>C09_DELTA*lvl){ vc_viol("conceal:no-decay","%s: after %.0f ms of continuous loss the output level %.4f is still %.2f x the pre-loss level %.4f (%s)",what,t,rm,rm/lvl,lvl,ctx); return 1; } }
+    if(cc_steady&&t>=1000&&!cc_have1s&&lvl>0.02){ cc_have1s=1; cc_cur1s=rm; if(cc_prev1s>1e-4){ vc_max("level_1s_into_loss_over_previous_episode",rm/cc_prev1s); if(rm>C09_EPISODE_GROWTH*cc_prev1s&&rm>0.02*lvl){ vc_viol("conceal:floor-grows","%s: 1 s into this loss episode the output level is %.5f, %.1f x the level 1 s into the previous episode (%.5f) of the same stationary stream; pre-loss level %.4f (%s)",what,rm,rm/cc_prev1s,cc_prev1s,lvl,ctx); return 1; } vc_count("episode_growth_checked",1); } }
+    if(getenv("C09_DEBUG")&&atoi(getenv("C09_DEBUG"))>=3) fprintf(stderr,"blk t %.0f rm %.5f pk %.5f\n",t,rm,p);
+    /* decay clause: from 1 s into a continuous loss, the level over each 200 ms (ten blocks; comfort noise fluctuates from block to block) against the pre-loss level */
+    if(t>=1000){ dacc.e+=rm*rm; if(++dacc.n==10){ double r2=sqrt(dacc.e/10); dacc.e=0; dacc.n=0; if(lvl>1e-3) vc_max("level_after_1s_loss_over_recent_level",r2/lvl);
+      if(lvl>0.02&&r2>C09_DELTA*lvl){ vc_viol("conceal:no-decay","%s: after %.0f ms of continuous loss the output level over 200 ms, %.4f, is still %.2f x the pre-loss level %.4f (%s)",what,t,r2,r2/lvl,lvl,ctx); return 1; } } } }
   return 0; }
 
 static long fec_better=0, lbrr_sub=0, lbrr_silent=0;
 static int decode_pattern(const cstream *s,OpusDecoder *d,OpusDecoder *clone,const unsigned char *lost,int shape,const char *ctx,double *fec_err,double *plc_err,long *fec_events){
   static float out[5760*2], out2[5760*2]; int fs=s->fs, ch=s->ch, Fs=s->Fs; recent_t q; recent_reset(&q,Fs); int sz=opus_decoder_get_size(ch); double lossms=0; int last_loss=-1000; double sig=0,noi=0; long rn=0;
-  opus_decoder_ctl(d,OPUS_RESET_STATE); cacc.e=0; cacc.p=0; cacc.n=0;
+  opus_decoder_ctl(d,OPUS_RESET_STATE); cacc.e=0; cacc.p=0; cacc.n=0; dacc.e=0; dacc.n=0; cc_prev1s=0; cc_cur1s=0; cc_have1s=0;
   for(int i=0;i<s->n;i++){ double Dms=fs*1000.0/Fs;
     if(lost[i]){ int next_ok=(i+1<s->n&&!lost[i+1]); int use_fec=(shape==2||shape==3)&&next_ok&&s->mode!=VK_MODE_CELT;
       if(use_fec){ /* the decoder conceals from a clone first (for comparison), then the real decoder uses the next packet's LBRR */
@@ -104,7 +112,7 @@ static int decode_pattern(const cstream *s,OpusDecoder *d,OpusDecoder *clone,con
     if(rc!=fs){ vc_viol("received:duration","received packet %d returned %d expected %d (%s)",i,rc,fs,ctx); return 1; }
     if(fr!=s->rng[i]){ vc_viol("received:final-range","packet %d after losses decodes with final range %08x, encoder had %08x (%s)",i,fr,s->rng[i],ctx); return 1; }
     for(int k=0;k<fs*ch;k++) if(!isfinite(out[k])){ vc_viol("received:not-finite","non-finite sample in packet %d (%s)",i,ctx); return 1; }
-    lossms=0; cacc.e=0; cacc.p=0; cacc.n=0; recent_push(&q,out,fs,ch);
+    if(cc_have1s){ cc_prev1s=cc_cur1s; cc_have1s=0; } dacc.e=0; dacc.n=0; lossms=0; cacc.e=0; cacc.p=0; cacc.n=0; recent_push(&q,out,fs,ch);
     /* recovery: from 1 s after the last loss, compare with the loss-free twin */
     if(last_loss>=0&&(i-last_loss)*Dms>=1000){ const float *t=s->twin+(size_t)i*fs*ch; for(int k=0;k<fs*ch;k++){ double a=out[k]-t[k]; noi+=a*a; sig+=(double)t[k]*t[k]; } rn+=fs; } }
   if(rn>=Fs/4&&sig>1e-6){ double snr=10*log10(sig/(noi+1e-20)); vc_min("recovery_snr_db_1s_after_loss",snr); if(snr<C09_RECOVER_DB){ vc_viol("recovery:not-converged","1 s after the last loss the output is only %.1f dB (SNR) from the loss-free decoder's (%s)",snr,ctx); return 1; } vc_count("recoveries_checked",1); if(noi==0) vc_count("recoveries_bit_exact",1); }
@@ -132,8 +140,20 @@ static void mode_burst(void){
   opus_decoder_destroy(d); free(clone); free_stream(&s);
 }
 
+/* several long bursts in ONE decoder lifetime (no reset in between): state that accumulates over loss episodes (background-noise estimate, loss counters) must not
+   keep concealment from decaying in a later burst */
+static void mode_multiburst(void){
+  vc_rng r; vc_case_rng(&r,11); int err; cstream s; g_steady=(int)vc_below(&r,2); make_stream(&r,&s,60000); int steady=g_steady; g_steady=0; double Dms=s.fs*1000.0/s.Fs; if(s.n*Dms<12000){ vc_count("streams_too_short",1); free_stream(&s); return; } OpusDecoder *d=opus_decoder_create(s.Fs,s.ch,&err); OpusDecoder *clone=(OpusDecoder*)malloc(opus_decoder_get_size(s.ch)); static unsigned char lost[MAXP]; char ctx[200]; double fe=0,pe=0; long fev=0;
+  memset(lost,0,sizeof lost); int i=(int)((steady?2600:700)/Dms)+1, nb=0; while(i<s.n){ int len=(int)(vc_range(&r,4000,10000)/Dms), gap=(int)(vc_range(&r,300,1200)/Dms)+1; if(i+len>=s.n-(int)(1200/Dms)) break; for(int k=i;k<i+len;k++) lost[k]=1; i+=len+gap; nb++; }
+  int shape=(int)vc_below(&r,3); snprintf(ctx,sizeof ctx,"mode %d frame %.1f ms Fs %d ch %d, %d bursts of 4-10 s in one decoder lifetime, %s, shape %d",s.mode,Dms,s.Fs,s.ch,nb,steady?"stationary noise after a quiet lead-in":"speech-like",shape);
+  cc_steady=steady; int bad=nb<2||decode_pattern(&s,d,clone,lost,shape,ctx,&fe,&pe,&fev); cc_steady=0;
+  if(!bad){ vc_count("multiburst_patterns",1); vc_count("multiburst_bursts",nb); if(steady) vc_count("multiburst_stationary_patterns",1); }
+  vc_sig3((uint64_t)s.mode|((uint64_t)s.fidx<<12),(uint64_t)(s.Fs/8000)|((uint64_t)s.ch<<3),77+steady);
+  opus_decoder_destroy(d); free(clone); free_stream(&s);
+}
+
 int main(int argc,char **argv){
   if(!&opus_verif_silk_params_cb){ fprintf(stderr,"hook H2 (opus_verif_silk_params_cb) is missing from this tree\n"); return 3; } opus_verif_silk_params_cb=gains_cb; if(!&opus_verif_silk_lbrr_gains_cb){ fprintf(stderr,"hook H3 (opus_verif_silk_lbrr_gains_cb) is missing from this tree\n"); return 3; } opus_verif_silk_lbrr_gains_cb=lbrr_enc_cb;
-  static const vc_mode_t modes[]={{"window",mode_window},{"burst",mode_burst},{0,0}};
+  static const vc_mode_t modes[]={{"window",mode_window},{"burst",mode_burst},{"multiburst",mode_multiburst},{0,0}};
   return vc_main(argc,argv,"C09",modes);
 }
